@@ -8,6 +8,7 @@
 use std::io::Write;
 use streaming_iterator::StreamingIterator;
 use tree_sitter::{Language, LossyUtf8, Parser, Query, QueryCursor, QueryPredicateArg};
+use tree_sitter_tags::c_lib;
 use tree_sitter_tags::{TagsConfiguration, TagsContext};
 use tsv_harness::*;
 
@@ -45,6 +46,65 @@ struct Env {
     config: TagsConfiguration,
     query: Query,
     header: String,
+    // the C API (crates/tags/src/c_lib.rs): one tagger + buffer per query set
+    tagger: *mut c_lib::TSTagger,
+    buffer: *mut c_lib::TSTagsBuffer,
+    ckinds: String,
+}
+
+/// Mirror of `TSTag` as declared in crates/tags/include/tree_sitter/tags.h (what a C client sees).
+#[repr(C)]
+#[derive(Clone, Copy)]
+struct CPoint {
+    row: u32,
+    column: u32,
+}
+#[repr(C)]
+#[derive(Clone, Copy)]
+struct CTag {
+    start_byte: u32,
+    end_byte: u32,
+    name_start_byte: u32,
+    name_end_byte: u32,
+    line_start_byte: u32,
+    line_end_byte: u32,
+    start_point: CPoint,
+    end_point: CPoint,
+    utf16_start_column: u32,
+    utf16_end_column: u32,
+    docs_start_byte: u32,
+    docs_end_byte: u32,
+    syntax_type_id: u32,
+    is_definition: bool,
+}
+
+/// The same source through ts_tagger_tag; one `ctag` line per C struct, `cmeta` for status/flags.
+fn emit_c_api(out: &mut impl Write, env: &Env, src: &[u8]) {
+    unsafe {
+        let flag = std::sync::atomic::AtomicUsize::new(0);
+        let scope = std::ffi::CString::new("s").unwrap();
+        let err = c_lib::ts_tagger_tag(env.tagger, scope.as_ptr(), src.as_ptr(), src.len() as u32, env.buffer, &flag);
+        let n = c_lib::ts_tags_buffer_tags_len(env.buffer) as usize;
+        let tags = c_lib::ts_tags_buffer_tags(env.buffer).cast::<CTag>();
+        let docs_ptr = c_lib::ts_tags_buffer_docs(env.buffer).cast::<u8>();
+        let docs_len = c_lib::ts_tags_buffer_docs_len(env.buffer) as usize;
+        let docs: &[u8] = if docs_len == 0 { &[] } else { std::slice::from_raw_parts(docs_ptr, docs_len) };
+        let perr = c_lib::ts_tags_buffer_found_parse_error(env.buffer);
+        writeln!(out, "cmeta {} {} {} {}", err as u32, perr as u8, docs_len, env.ckinds).unwrap();
+        for i in 0..n {
+            let t = *tags.add(i);
+            let (ds, de) = (t.docs_start_byte as usize, t.docs_end_byte as usize);
+            let d = if ds <= de && de <= docs.len() { hex(&docs[ds..de]) } else { "BAD".to_string() };
+            writeln!(
+                out,
+                "ctag {} {} {} {} {} {} {} {} {} {} {} {} {} {} ={}",
+                t.start_byte, t.end_byte, t.name_start_byte, t.name_end_byte, t.line_start_byte, t.line_end_byte,
+                t.start_point.row, t.start_point.column, t.end_point.row, t.end_point.column,
+                t.utf16_start_column, t.utf16_end_column, t.is_definition as u8, t.syntax_type_id, d
+            )
+            .unwrap();
+        }
+    }
 }
 
 fn build_env(qs: &QuerySet) -> Env {
@@ -78,7 +138,30 @@ fn build_env(qs: &QuerySet) -> Env {
         }
         header.push_str(&format!("pat {} {} {} {}\n", nonlocal as u8, inherits as u8, opt(adjacent), opt(strip)));
     }
-    Env { language: b.language, config, query, header }
+    // C API objects; the syntax kinds table must list the same names as the Rust configuration
+    let (tagger, buffer, ckinds) = unsafe {
+        let tagger = c_lib::ts_tagger_new();
+        let scope = std::ffi::CString::new("s").unwrap();
+        let e = c_lib::ts_tagger_add_language(
+            tagger,
+            scope.as_ptr(),
+            b.language.clone(),
+            qs.tags.as_ptr(),
+            if qs.locals.is_empty() { std::ptr::null() } else { qs.locals.as_ptr() },
+            qs.tags.len() as u32,
+            qs.locals.len() as u32,
+        );
+        assert!(e as u32 == 0, "ts_tagger_add_language failed");
+        let mut len = 0u32;
+        let kinds = c_lib::ts_tagger_syntax_kinds_for_scope_name(tagger, scope.as_ptr(), &mut len);
+        let mut names = Vec::new();
+        for i in 0..len as usize {
+            names.push(std::ffi::CStr::from_ptr(*kinds.add(i)).to_string_lossy().into_owned());
+        }
+        let rust_names: Vec<String> = (0..len).map(|i| config.syntax_type_name(i).to_string()).collect();
+        (tagger, c_lib::ts_tags_buffer_new(), if names == rust_names { "kinds=ok".to_string() } else { format!("kinds=DIFF:{}", names.join(",")) })
+    };
+    Env { language: b.language, config, query, header, tagger, buffer, ckinds }
 }
 
 /// One case: returns (number of tags, parse had errors).
@@ -164,6 +247,8 @@ fn emit_case(out: &mut impl Write, env: &Env, qid: &str, cid: &str, src: &[u8]) 
                 }
                 writeln!(out, "{l}").unwrap();
             }
+            writeln!(out, "rmeta {}", had as u8).unwrap();
+            emit_c_api(out, env, src); // only after the Rust API survived (a panic inside extern "C" aborts)
         }
         Err(_) => writeln!(out, "tagerr panic").unwrap(),
     }
